@@ -77,8 +77,8 @@ def fq2_sqrt(ctx, ids):
         chk.axioms.append(D.isz(D_canon(t_)) == z3.And(Dc.iszero(CMP[0](t_)), Dc.iszero(CMP[1](t_))))
     q = ref.Q
     e1, e2 = (q - 3) // 4, (q - 1) // 2
-    chk.ground('Fq2::sqrt exponent literals are (q-3)/4 and (q-1)/2', set(pows) == {e1, e2}, str([hex(e)[:20] for e in pows]))
-    chk.ground('Fq2::sqrt constants: -1 and u', set(consts2) == {(q - 1, 0), (0, 1)}, str(list(consts2)))
+    chk.shape('Fq2::sqrt exponent literals are (q-3)/4 and (q-1)/2', set(pows) == {e1, e2}, str([hex(e)[:20] for e in pows]))
+    chk.shape('Fq2::sqrt constants: -1 and u', set(consts2) == {(q - 1, 0), (0, 1)}, str(list(consts2)))
     if set(pows) != {e1, e2} or set(consts2) != {(q - 1, 0), (0, 1)}:
         return
     P1, P2 = pows[e1], pows[e2]
@@ -132,6 +132,33 @@ def native_differential(ctx):
         ins.append(ref.f2_sqr(z_))
     # non-residues of Fq embedded in Fq2 (alpha = -1 branch) and elements of norm non-residue
     ins += [(11, 0), (q - 11, 0)]
+    # Alg. 9 branches on alpha = a^((q-1)/2), an element of norm +-1.  One input for every alpha with a SPECIAL COMPONENT (a coefficient
+    # equal to 0, 1 or -1): (+-1, 0), (0, +-1) [norm 1] and (+-1, +-sqrt(-2)) [norm -1, non-squares] -- a test that inspects only one
+    # coefficient of alpha confuses exactly these with the cases it means.  Construction (Hilbert 90): for beta = alpha^2 (norm 1),
+    # c = 1 + beta (or u when beta = -1) has c^(1-q) = beta, so d = 1/c has d^((q-1)/2) = +-alpha; multiply by -1 (a non-residue of Fq,
+    # q = 3 mod 4) to fix the sign; scaling by squares of Fq does not change alpha.
+    s2 = ref.fq_sqrt((-2) % q)
+    alphas = [(1, 0), (q - 1, 0), (0, 1), (0, q - 1)]
+    if s2 is not None:
+        alphas += [(q - 1, s2), (q - 1, q - s2), (1, s2), (1, q - s2)]
+    built = 0
+    for al in alphas:
+        beta = ref.f2_sqr(al)
+        c = ref.f2_add(ref.F2_ONE, beta)
+        if c == ref.F2_ZERO:
+            c = (0, 1)
+        d = ref.f2_inv(c)
+        t = ref.f2_pow(d, (q - 1) // 2)
+        if t == ref.f2_neg(al):
+            d = ref.f2_neg(d)
+            t = ref.f2_pow(d, (q - 1) // 2)
+        if t != al:
+            continue
+        built += 1
+        ins.append(d)
+        k_ = rnd.randrange(2, q)
+        ins.append(ref.f2_mul(d, (k_ * k_ % q, 0)))
+    chk.extra['alpha_class_inputs'] = built
     cmds = ['fq2_sqrt %x %x' % z_ for z_ in ins]
     bad = {}
     for profile in ('release', 'dev'):
